@@ -532,6 +532,36 @@ func derivesFromCallArgs(p *Prog, v ssa.Value, pred func(ssa.Value) bool) bool {
 					return true
 				}
 			}
+			// through the results of a repo helper
+			if sc := x.Common().StaticCallee(); sc != nil && sc.Blocks != nil && sc.Pkg != nil && strings.HasPrefix(sc.Pkg.Pkg.Path(), modPath) {
+				for _, b := range sc.Blocks {
+					if ret, ok := b.Instrs[len(b.Instrs)-1].(*ssa.Return); ok {
+						for _, rv := range ret.Results {
+							if rec(rv, d+1) {
+								return true
+							}
+						}
+					}
+				}
+			}
+		case *ssa.Alloc:
+			// a local variable (possibly a struct): everything stored into it or into its fields
+			for _, ref := range *x.Referrers() {
+				switch y := ref.(type) {
+				case *ssa.Store:
+					if y.Addr == ssa.Value(x) && rec(y.Val, d+1) {
+						return true
+					}
+				case *ssa.FieldAddr:
+					for _, r2 := range *y.Referrers() {
+						if st, ok := r2.(*ssa.Store); ok && st.Addr == ssa.Value(y) && rec(st.Val, d+1) {
+							return true
+						}
+					}
+				}
+			}
+		case *ssa.Field:
+			return rec(x.X, d+1)
 		case *ssa.BinOp:
 			return rec(x.X, d+1) || rec(x.Y, d+1)
 		case *ssa.UnOp:
@@ -653,32 +683,18 @@ func checkLeaderStart(p *Prog, r *Roles, res *Result, rule string) {
 			}
 			// provenance of v
 			construct = funcName(cb) + ": seeded revision is parsed from Describe()"
-			okProv := false
-			if c, idx, ok := extractOf(argForSigParam(setCur, 0)); ok {
-				if g := c.Common().StaticCallee(); g != nil && g.Blocks != nil {
-					all, n := true, 0
-					for _, b := range g.Blocks {
-						ret, ok := b.Instrs[len(b.Instrs)-1].(*ssa.Return)
-						if !ok {
-							continue
-						}
-						rv := resolve(ret.Results[idx])
-						if isZeroConst(rv) {
-							continue
-						}
-						n++
-						pc, pidx, ok := extractOf(rv)
-						isParse := ok && pidx == 0 && pc.Common().StaticCallee() != nil && pc.Common().StaticCallee().Name() == "ParseUint"
-						if !isParse || !derivesFromCallArgs(p, pc.Common().Args[0], func(v ssa.Value) bool {
-							dc, ok := v.(*ssa.Call)
-							return ok && dc.Common().IsInvoke() && dc.Common().Method.Name() == "Describe"
-						}) {
-							all = false
-						}
-					}
-					okProv = all && n > 0
+			// the seeded value derives (through helper results, local variables and struct fields) from
+			// strconv.ParseUint applied to something that derives from the lock's Describe()
+			okProv := derivesFromCallArgs(p, argForSigParam(setCur, 0), func(v ssa.Value) bool {
+				pc, ok := v.(*ssa.Call)
+				if !ok || pc.Common().StaticCallee() == nil || pc.Common().StaticCallee().Name() != "ParseUint" || len(pc.Common().Args) == 0 {
+					return false
 				}
-			}
+				return derivesFromCallArgs(p, pc.Common().Args[0], func(w ssa.Value) bool {
+					dc, ok := w.(*ssa.Call)
+					return ok && dc.Common().IsInvoke() && dc.Common().Method.Name() == "Describe"
+				})
+			})
 			if okProv {
 				res.ok(rule, construct, p.pos(setCur.Pos()), "strconv.ParseUint of a part of resourcelock.Describe()")
 			} else {
